@@ -268,9 +268,9 @@ type Resp struct {
 	Addr  uint16 `json:"addr,omitempty"`
 	Value uint16 `json:"value,omitempty"`
 	// fc17
-	ServerID   Hex `json:"server_id,omitempty"`
-	Status     uint8  `json:"status,omitempty"`
-	Additional Hex `json:"additional,omitempty"`
+	ServerID   Hex   `json:"server_id,omitempty"`
+	Status     uint8 `json:"status,omitempty"`
+	Additional Hex   `json:"additional,omitempty"`
 }
 
 // ResponsePDU encodes the response PDU.
